@@ -157,6 +157,11 @@ def run_once(scn, schedule=(), policy="first", rng=None, crash=None, d1=True, ma
         if w.rec.in_frame:
             w.rec.end_frame()
         w.rec.emit("escaped", err=res.error[:300])
+        # the run stops here (in production the exception reached the I/O loop): what is left is judged as it stands
+        try:
+            w.quiesce("D1")
+        except BaseException:
+            pass
     finally:
         res.events = w.rec.events
         for s in scn["starts"]:
